@@ -102,6 +102,9 @@ def run(tier, seed, mutant=None, only_validate=False):
         cfgs += [{"kind": "rate_limit", "interval": i, "cons": ["future"], "max_elems": 3} for i in ("2s", "1d", "36h")]
         cfgs += [{"kind": "rate_limit", "interval": 2, "cons": [c], "max_elems": ne, "faults": True} for c in ("future", "coro")]
         cfgs += [{"kind": "rate_limit", "interval": 2, "cons": ["future"], "max_elems": ne, "falsy": {"none": 2, "zero": 3}}]
+        # a caller that does not wait (a plain loop-less Stream connected in front, collect().flush(), ...): the node must do its
+        # work without anybody awaiting what update() returns
+        cfgs += [{"kind": "rate_limit", "interval": 2, "cons": [c], "max_elems": ne, "feeder": "plain"} for c in ("future", "sync")]
         # gaps: time passes while nothing at all is pending, then a burst (every gap length up to 2.5 intervals, twice)
         for i in ((2, 3) if tier == "quick" else (1, 2, 3, 4)):
             gaps = ["e1 s d s " + "w " * g + "e1 e1 s" for g in range(1, 2 * i + 2)]
